@@ -19,6 +19,7 @@ type Options struct {
 	RandAll       bool // enumerate rand answers from the boundary alphabet (default: 0 only)
 	TimerDevFree  bool // timer events cost no deviation (small virtual-time scenarios)
 	Delay         bool // delay bounding: choosing a thread costs the number of enabled threads skipped in round-robin order (default: preemption bounding, non-preempting switches free)
+	PostUnlock    bool // an extra scheduling point right after every Unlock / RUnlock (windows that follow a critical section)
 	Sites         bool // record the call site of every parked operation (for Threads)
 	SpinLimit     int  // forced un-gatings of yielded threads before "livelock" (default 30)
 }
